@@ -1579,6 +1579,7 @@ theorem step_saveCall {s : St} {op : Op} {st : List (Vb × Doc)} {d : List Vb}
   case persist => (repeat' split at h) <;> simp at h
   case getOffsets => simp at h
   case metrics => (repeat' split at h) <;> simp at h
+  case scrape => simp only [scrape] at h; split at h <;> simp at h
 
 /-- whatever a step reports as made durable comes out of a dump: one a saver in flight took earlier,
     or (whole save) the current offsets, restricted to the dirty list that saver captured -/
@@ -1633,6 +1634,7 @@ theorem step_written {s : St} {op : Op} {w : List (Vb × Doc)} (h : Obsv.written
   case persist => (repeat' split at h) <;> simp at h
   case getOffsets => simp at h
   case metrics => (repeat' split at h) <;> simp at h
+  case scrape => simp only [scrape] at h; split at h <;> simp at h
 
 /-- the durable store after a step: what was there, what the environment put (`setStore`),
     or what the step reported as written -/
@@ -1833,6 +1835,7 @@ theorem step_tracks (s : St) (op : Op) : tracksOut (step s op).2 = settleOut s (
   case persist => (repeat' split) <;> rfl
   case getOffsets => rfl
   case metrics => (repeat' split) <;> rfl
+  case scrape => simp only [scrape]; split <;> rfl
 
 /-- only in-session ops settle anything -/
 theorem inSession_of_settle {s : St} {op : Op} {x : Vb × Offset} (h : settle? s op = some x) : inSession op = true := by
@@ -1950,6 +1953,7 @@ theorem step_deliver {s : St} {op : Op} {i : Nat} {vb : Vb} {d : DocEv} {off : O
   case persist => (repeat' split at h) <;> simp at h
   case getOffsets => simp at h
   case metrics => (repeat' split at h) <;> simp at h
+  case scrape => simp only [scrape] at h; split at h <;> simp at h
 
 /-- a stream request is issued only by `open`, one per loaded offset, and that offset is the
     position the session starts from -/
@@ -2000,6 +2004,7 @@ theorem step_openreq {s : St} {op : Op} {vb : Vb} {o : Offset} (h : Obsv.openreq
   case persist => (repeat' split at h) <;> simp at h
   case getOffsets => simp at h
   case metrics => (repeat' split at h) <;> simp at h
+  case scrape => simp only [scrape] at h; split at h <;> simp at h
 
 
 /-- the context list grows exactly when something is delivered, by that delivery's context -/
@@ -2031,5 +2036,160 @@ theorem step_ctxs_cases (s : St) (op : Op) :
           | seqAdv off => left; simp [listen]
           | sys k off => left; simp [listen]
         | _ => rw [evStep_of_obs e ho, hout]; exact Or.inl rfl
+
+
+/-! ## which ops talk to the store -/
+
+/-- only a save (whole, or its dump micro-step) calls `Metadata.Save` -/
+theorem step_saveCall_op {s : St} {op : Op} {st : List (Vb × Doc)} {d : List Vb}
+    (h : Obsv.saveCall st d ∈ (step s op).2) : (∃ res, op = .save res) ∨ ∃ k, op = .svDump k := by
+  cases op <;> simp only [step] at h
+  case setStore => split at h <;> simp at h
+  case setHigh => simp at h
+  case setFlog => split at h <;> simp at h
+  case «open» =>
+    simp only [openSession] at h
+    split at h
+    · simp at h
+    · split at h <;> simp at h
+  case close => simp only [closeSession] at h; split at h <;> simp at h
+  case crash => simp [crash] at h
+  case ev vb e =>
+    cases ho : s.observers.get? vb with
+    | none => rw [evStep_of_no_obs e ho] at h; simp at h
+    | some o =>
+      rw [evStep_of_obs e ho] at h
+      split at h
+      · rename_i le _
+        cases le <;> simp only [listen] at h
+        case doc => split at h <;> simp [setOffset_out] at h <;> split at h <;> simp at h
+        all_goals (try simp [setOffset_out] at h) <;> (try split at h) <;> simp at h
+      all_goals simp at h
+  case ack i =>
+    split at h
+    · simp at h
+    · split at h
+      · simp at h
+      · rw [ack_out, setOffset_out] at h; split at h <;> simp at h
+  case save res => exact Or.inl ⟨res, rfl⟩
+  case svBegin k => simp only [svBegin] at h; (repeat' split at h) <;> simp at h
+  case svDump k => exact Or.inr ⟨k, rfl⟩
+  case svStore k res => simp only [svStore] at h; (repeat' split at h) <;> simp at h
+  case svUnmark k => simp only [svUnmark] at h; (repeat' split at h) <;> simp at h
+  case persist => (repeat' split at h) <;> simp at h
+  case getOffsets => simp at h
+  case metrics => (repeat' split at h) <;> simp at h
+  case scrape => simp only [scrape] at h; split at h <;> simp at h
+
+/-- only a save (whole, or its store micro-step) reports a durable write -/
+theorem step_written_op {s : St} {op : Op} {w : List (Vb × Doc)}
+    (h : Obsv.written w ∈ (step s op).2) : (∃ res, op = .save res) ∨ ∃ k res, op = .svStore k res := by
+  cases op <;> simp only [step] at h
+  case setStore => split at h <;> simp at h
+  case setHigh => simp at h
+  case setFlog => split at h <;> simp at h
+  case «open» =>
+    simp only [openSession] at h
+    split at h
+    · simp at h
+    · split at h <;> simp at h
+  case close => simp only [closeSession] at h; split at h <;> simp at h
+  case crash => simp [crash] at h
+  case ev vb e =>
+    cases ho : s.observers.get? vb with
+    | none => rw [evStep_of_no_obs e ho] at h; simp at h
+    | some o =>
+      rw [evStep_of_obs e ho] at h
+      split at h
+      · rename_i le _
+        cases le <;> simp only [listen] at h
+        case doc => split at h <;> simp [setOffset_out] at h <;> split at h <;> simp at h
+        all_goals (try simp [setOffset_out] at h) <;> (try split at h) <;> simp at h
+      all_goals simp at h
+  case ack i =>
+    split at h
+    · simp at h
+    · split at h
+      · simp at h
+      · rw [ack_out, setOffset_out] at h; split at h <;> simp at h
+  case save res => exact Or.inl ⟨res, rfl⟩
+  case svBegin k => simp only [svBegin] at h; (repeat' split at h) <;> simp at h
+  case svDump k => simp only [svDump] at h; (repeat' split at h) <;> simp at h
+  case svStore k res => exact Or.inr ⟨k, res, rfl⟩
+  case svUnmark k => simp only [svUnmark] at h; (repeat' split at h) <;> simp at h
+  case persist => (repeat' split at h) <;> simp at h
+  case getOffsets => simp at h
+  case metrics => (repeat' split at h) <;> simp at h
+  case scrape => simp only [scrape] at h; split at h <;> simp at h
+
+/-! ## reserved keys -/
+
+/-- `helpers.IsMetadata` as a list-prefix statement (usable on concrete keys by `decide`) -/
+theorem isMetaKey_iff (k : String) :
+    isMetaKey k = true ↔ hexPrefix.toList <+: k.toList ∨ hexTxn.toList <+: k.toList := by
+  unfold isMetaKey String.isPrefixOf
+  simp [String.startsWith_string_iff]
+
+/-- the dirty maps after an event: only a dirtying settle (seqno-advanced, system event) touches them -/
+theorem evStep_doc_dirtyMaps (s : St) (vb : Vb) (d : DocEv) (hm : isMetaKey d.key = true) :
+    (evStep s vb (.doc d)).1.dirtyMaps = s.dirtyMaps := by
+  cases ho : s.observers.get? vb with
+  | none => rw [evStep_of_no_obs _ ho]
+  | some o =>
+    cases hout : (Obs.step s.cfg.obs o (.doc d)).2 with
+    | fwd le =>
+      obtain ⟨hle, _, hev⟩ := evStep_doc_fwd ho hout
+      rw [hev, hle, listen_doc_meta _ _ _ _ _ hm, setOffset_dirtyMaps_false]
+    | _ => rw [evStep_of_obs _ ho, hout]
+
+/-- a marker only updates the observer -/
+theorem evStep_marker_frame (s : St) (vb : Vb) (a b : Nat) :
+    (evStep s vb (.marker a b)).1.dirtyMaps = s.dirtyMaps ∧ (evStep s vb (.marker a b)).1.offsets = s.offsets := by
+  cases ho : s.observers.get? vb with
+  | none => rw [evStep_of_no_obs _ ho]; exact ⟨rfl, rfl⟩
+  | some o =>
+    cases hout : (Obs.step s.cfg.obs o (.marker a b)).2 with
+    | fwd le =>
+      rcases Obs.step_fwd_cases hout with ⟨_, _, _, hle⟩ | ⟨_, h, _⟩ | ⟨_, h, _⟩ | ⟨_, _, _, h, _⟩ | ⟨h, _⟩ <;>
+        try (cases h)
+      rw [evStep_of_obs _ ho, hout, hle]; exact ⟨rfl, rfl⟩
+    | _ => rw [evStep_of_obs _ ho, hout]; exact ⟨rfl, rfl⟩
+
+theorem evStep_marker_dirtyMaps (s : St) (vb : Vb) (a b : Nat) :
+    (evStep s vb (.marker a b)).1.dirtyMaps = s.dirtyMaps := (evStep_marker_frame s vb a b).1
+
+theorem evStep_marker_offsets (s : St) (vb : Vb) (a b : Nat) :
+    (evStep s vb (.marker a b)).1.offsets = s.offsets := (evStep_marker_frame s vb a b).2
+
+
+/-- a document with a non-reserved key that the observer forwards is delivered, with a fresh context -/
+theorem step_ev_doc_user (s : St) (vb : Vb) (o : Obs) (d : DocEv) (le : LEvent)
+    (hm : isMetaKey d.key = false) (ho : s.observers.get? vb = some o)
+    (hf : (Obs.step s.cfg.obs o (.doc d)).2 = .fwd le) :
+    (step s (.ev vb (.doc d))).2 =
+      [.deliver s.ctxs.length vb d (Obs.mkOffset o d.seq) (Obs.collName s.cfg.obs d.coll) (d.cas / 1000000000)] ∧
+    (step s (.ev vb (.doc d))).1.ctxs = s.ctxs ++ [⟨s.sess, vb, Obs.mkOffset o d.seq⟩] := by
+  obtain ⟨hle, _, hev⟩ := evStep_doc_fwd ho hf
+  simp only [step]
+  rw [hev, hle, listen_doc_user _ _ _ _ _ hm]
+  exact ⟨rfl, rfl⟩
+
+/-- `isMetaKey` is false when neither reserved prefix is a list prefix (for concrete keys: `by decide`) -/
+theorem isMetaKey_eq_false {k : String} (h1 : hexPrefix.toList.isPrefixOf k.toList = false)
+    (h2 : hexTxn.toList.isPrefixOf k.toList = false) : isMetaKey k = false := by
+  cases h : isMetaKey k with
+  | false => rfl
+  | true =>
+    rcases (isMetaKey_iff k).1 h with h' | h'
+    · rw [List.isPrefixOf_iff_prefix.2 h'] at h1; cases h1
+    · rw [List.isPrefixOf_iff_prefix.2 h'] at h2; cases h2
+
+theorem isMetaKey_eq_true {k : String}
+    (h : (hexPrefix.toList.isPrefixOf k.toList || hexTxn.toList.isPrefixOf k.toList) = true) : isMetaKey k = true := by
+  rw [isMetaKey_iff]
+  simp only [Bool.or_eq_true] at h
+  rcases h with h | h
+  · exact Or.inl (List.isPrefixOf_iff_prefix.1 h)
+  · exact Or.inr (List.isPrefixOf_iff_prefix.1 h)
 
 end GoDcp
